@@ -105,10 +105,10 @@ def run(ctx):
     nshort = 16
     bounds = [-2 + round(i * 258 / nshort) for i in range(nshort + 1)]
     jobs = [{"kind": "short", "lo": bounds[i], "hi": bounds[i + 1]} for i in range(nshort)]
-    nlong = ctx.pick(600, 40000)
+    nlong = ctx.pick(600, 200000)
     per = ctx.pick(100, 1250)
     jobs += [{"kind": "long", "n": per} for _ in range(nlong // per)]
-    ctx.shard(jobs, timeout=ctx.pick(60, 300))
+    ctx.shard(jobs, timeout=ctx.pick(60, 1500))
     ctx.exhaustive = True
     ctx.extra["exhaustive_scope"] = "all byte strings of length <= 2; longer strings sampled"
     ctx.floor("short_strings_blocks", 258)
